@@ -307,6 +307,18 @@ class DocSUT:
         local = self.newpath("src", ext)
         shutil.copyfile(src, local)
         simenv.env().touch(local)
+        if kind.startswith("newfrom:"):
+            # Document.new(<path of a document used as a custom template>): a copy with no path of its own
+            self.doc = Document.new(local if how != "pathobj" else __import__("pathlib").Path(local))
+            pk = xmlref.read_package(local)
+            st = PartStore.from_package(pk)
+            mt = st.base["mimetype"].decode().replace("-template", "")
+            st.base["mimetype"] = mt.encode()
+            st.mimetype = mt
+            self.store = st
+            self.src_pk = pk
+            self.src = {"kind": "template", "path": None, "packaging": "zip"}
+            return
         self.open_artifact(local, how, init.get("salt", 0))
 
     def open_artifact(self, path, how, salt=0):
